@@ -13,6 +13,13 @@ func init() {
 	register(&core.Rule{ID: "P1", Min: 10,
 		Doc: "Restart protocol of the buffer-full path, at alg.Quote, alg.HtmlEscape and the x86 encode_string template: inside the retry loop (1) the byte count the native reports through dn is added to the output length before its result is tested; (2) a non-negative result leaves the loop; (3) otherwise the buffer is grown; (4) the result is complemented and *added* to the input cursor (a plain assignment loses the progress of earlier rounds); (5) the native is re-entered with the advanced cursor. utf8.CorrectWith: the copy cursor is re-synchronised with the scan cursor inside the loop before each native call, and the position list is reset when the native reports it was full.",
 		Run: runP1})
+	register(&core.Rule{ID: "P1s", Min: 1, Arm64: true,
+		Doc: "The pool-state row of P1 alone: utf8.CorrectWith clears the Sp of the pooled state machine it draws (the pool is shared with Valid / Skip / Get, which leave Sp at the nesting depth of a failed scan) before the first native call; otherwise what ConfigStd Marshal / Unmarshal return depends on what other goroutines did with the pool.",
+		Run: func(c *core.Ctx) {
+			c.Keep = func(cn string) bool { return strings.Contains(cn, "P1-init-reset") }
+			runP1(c)
+			c.Keep = nil
+		}})
 }
 
 func nativeCallIn(p *core.Program, body ast.Node, names ...string) (*ast.CallExpr, *ast.AssignStmt) {
